@@ -173,6 +173,7 @@ type World struct {
 	PkceOf     map[int]string        // per code id: method used
 	DevRID     map[int]string
 	codeOwner  map[int]string
+	DevOwner   map[int]string // device id -> client that started the flow
 	mu         sync.Mutex
 	authzCalls int
 }
@@ -211,7 +212,7 @@ func newClient(id string, public bool) *fosite.DefaultClient {
 // the synctest bubble of the history (the provider reads time.Now()).
 func NewWorld(cfg Cfg) *World {
 	rk, _, _ := Keys()
-	w := &World{Cfg: cfg, T0: time.Now(), Tok: map[string]map[string]string{"code": {}, "at": {}, "rt": {}, "dev": {}, "par": {}}, UCs: map[string]string{}, Verifier: map[int]string{}, PkceOf: map[int]string{}, DevRID: map[int]string{}, codeOwner: map[int]string{}}
+	w := &World{Cfg: cfg, T0: time.Now(), Tok: map[string]map[string]string{"code": {}, "at": {}, "rt": {}, "dev": {}, "par": {}}, UCs: map[string]string{}, Verifier: map[int]string{}, PkceOf: map[int]string{}, DevRID: map[int]string{}, codeOwner: map[int]string{}, DevOwner: map[int]string{}}
 	w.Mem = storage.NewMemoryStore()
 	for _, id := range []string{"A", "B", "P"} {
 		w.Mem.Clients[id] = newClient(id, id == "P")
